@@ -33,7 +33,7 @@ import sys
 sys.path.insert(0, os.path.dirname(os.path.abspath(__file__)))
 import rsx  # noqa: E402
 
-REPO = "/repo"
+REPO = os.environ.get("VERIF_REPO_OVERRIDE", "/repo")  # override: development aid for trying mutations on a scratch copy
 
 # (name, regex, replacement, reason). Applied to the extracted text only.
 GLOBAL_REWRITES = [
@@ -320,7 +320,7 @@ def expand_item(kind, text, stats):
             keep = [x.strip() for x in md.group(1).split(",") if x.strip() in ("Clone", "Copy", "PartialEq", "Eq")]
             if keep:
                 t = "#[derive(" + ", ".join(keep) + ")]\n" + t.lstrip("\n")
-        t = re.sub(r"^\s*(pub(\s*\([^)]*\))?\s+)?(struct|enum)", r"pub \3", t)
+        t = re.sub(r"^[ \t]*(pub(\s*\([^)]*\))?\s+)?(struct|enum)\b", r"pub \3", t, count=1, flags=re.M)
         t = re.sub(r"^[ \t]*//[^\n]*\n", "", t, flags=re.M)
         t = re.sub(r"^([ \t]+)(?:pub(?:\s*\([^)]*\))?\s+)?([a-z_][A-Za-z0-9_]*\s*:)", r"\1pub \2", t, flags=re.M)
         out = t
